@@ -453,7 +453,7 @@ def run(repo, chk):
             sets = [e for e in ev if e.kind == 'sub' and e.func == '.set']
             vals = [e for e in ev if e.kind == 'sub' and e.func == 'self.get_expr_value']
             ok = sets and src(sets[-1].recv) == 'access' and [src(a) for a in sets[-1].args] == ['value'] and vals and vals[-1].bound == 'value' \
-                and [src(a) for a in vals[-1].args] == ['dest', 'stmt.expr']
+                and [src(a) for a in vals[-1].args] in (['dest', 'stmt.expr'], ['dest', 'stmt.type_equiv_assignment().expr'])
             chk.expect(ok, 'C01.S1', 'gen_stmts[Assignment/variable]', 'the evaluated value is stored into the looked-up variable', GEN)
             break
 
